@@ -6,7 +6,49 @@ VERIF = Path(__file__).resolve().parent.parent
 PAIR_TECH = ("TLA+ closed model (Cfdp.tla = SrcCore + DstCore transducers + faulty links + clock + users) checked by TLC; "
              "TLC-generated schedules replayed into the real handlers; recorded executions validated against the transducers and "
              "judged by TLA+ monitors (CfdpProps.tla) evaluated by TLC")
+SOLO_TECH = ("TLA+ single-handler adversarial model (Solo.tla over the SrcCore / DstCore transducers) with the property monitor as "
+             "TLC invariant of every input sequence up to the depth bound; TLC-enumerated sequences replayed into the real "
+             "handler; recorded executions validated against the transducers and judged by the same TLA+ monitor")
 CLAIMED = {
+    "C07": dict(
+        text="The C07 monitor (Metadata first with true size / names / checksum type / closure; File Data consecutive from 0, "
+             "non-empty, within min(configured, derived) segment length, the file's bytes, one per call; EOF with the file's size "
+             "and bit-serial TLA+ checksum; equal ids and widths, mode, CRC flag, direction; packs and parses; encoded lengths "
+             "equal the independent PduLayout arithmetic and respect the maximum packet length) is a TLC invariant of every "
+             "put/poll sequence of 1440+ configurations over SrcCore, and is evaluated by TLC on the executions of those "
+             "sequences, of fault-free two-entity schedules and of seeded lone-source runs (larger files, all widths, packet "
+             "lengths at the break points) on the real SourceHandler.",
+        ref="DESIGN.md section 6 C07", tech=SOLO_TECH,
+        note="Trusted: TLC; the harness projection incl. pack()/PduFactory.from_raw round trip (known spacepackets parser defects "
+             "normalised). Scope: no inbound PDUs before the EOF."),
+    "C08": dict(
+        text="The C08 monitor (per NAK-carrying call: re-sent Metadata / File Data PDUs tile the requests in order within the segment "
+             "length with the file's bytes; inverted or beyond-sent requests raise InvalidNakPdu and nothing outside the file is "
+             "emitted; original File Data PDUs stay consecutive, EOF unchanged) is a TLC invariant of every sequence of NAKs "
+             "(valid, several requests, zero-length, inverted, beyond sent / file) x polls x ACK x Finished up to depth 6-7 over "
+             "SrcCore; the sequences, seeded adversarial source runs and two-entity fault schedules are executed on the real "
+             "SourceHandler, validated against the transducer and judged by the monitor.",
+        ref="DESIGN.md section 6 C08", tech=SOLO_TECH,
+        note="Trusted: TLC; harness projection. Bounds: files of 2-4 bytes, segment length 1-2 in the exhaustive part."),
+    "C10": dict(
+        text="The C10 monitor (exception class is none or one of cfdppy.exceptions; UnretrievedPdusToBeSent only with PDUs queued "
+             "before the call; an admission refusal leaves state, step, progress, queue and filestore unchanged) is a TLC "
+             "invariant of every input sequence from the widest universe (all PDU kinds, wrong direction / ids / sequence "
+             "number / mode, odd offsets, sizes and checksums, EOF(cancel), put / cancel requests, clock jumps, rejected "
+             "writes) over both transducers; the sequences plus seeded random adversarial runs (incl. unretrieved PDUs, "
+             "non-default fault handlers) and two-entity fault schedules are executed on the real handlers; conformance checks "
+             "the predicted exception class of every call.",
+        ref="DESIGN.md section 6 C10", tech=SOLO_TECH,
+        note="Trusted: TLC; harness projection (exception class and raising frame from the traceback)."),
+    "C19": dict(
+        text="The C19 monitor (busy handler returns false and is undisturbed; missing file / unknown destination raise the documented "
+             "error and leave the handler idle; valid request on an idle handler accepted; mode and closure of every PDU from "
+             "the request else the MIB; every non-final File Data PDU has exactly min(configured, PduLayout-derived) bytes; "
+             "k-th transaction indication carries the k-th provider value) is a TLC invariant of every sequence of valid / "
+             "premature / invalid requests x options over SrcCore; sequences, lone-source multi-transaction runs and two "
+             "handlers sharing one provider are executed on the real SourceHandler.",
+        ref="DESIGN.md section 6 C19", tech=SOLO_TECH,
+        note="Trusted: TLC; harness projection; the counting sequence-number provider of the harness."),
     "C01": dict(
         text="TLC checks on the closed TLA+ model, in every reachable state of every schedule with up to K faults (drop, duplicate, "
              "reorder, delay, payload bit flip, rejected write; all modes, closure, NAK modes; CRC-32/CRC-32C computed bit-serially "
